@@ -7,9 +7,11 @@
 EXTENDS Deploy, TLAPS, SequenceTheorems
 
 ASSUME NotWeakened == Weaken = "none"
-ASSUME ConstAssump == Evil \in Slots /\ MaxNet \in Nat /\ MaxBlobs \in Nat
+ASSUME ConstAssump == Evil \in Slots /\ MaxNet \in Nat /\ MaxBlobs \in Nat /\ MaxClock \in Nat
 
-TokT == [head : Kinds, bkind : Kinds, key : Slots, claims : ClaimSet, bkk : Kinds, bks : Slots, bnote : NoteSet,
+ClockTyped == clock \in Nat
+
+TokT == [head : Kinds, bkind : Kinds, key : Slots, claims : ClaimSet, exp : Nat, bkk : Kinds, bks : Slots, bnote : NoteSet,
          fkk : Kinds, fks : Slots, fnote : NoteSet]
 
 NetTyped == net \in Seq(TokT)
@@ -20,10 +22,10 @@ NetInv == \A k \in 1..Len(net) : net[k].key # Evil =>
             /\ net[k].bkk = net[k].bkind
             /\ [kind |-> net[k].bkind, key |-> net[k].key, claims |-> net[k].claims, note |-> net[k].bnote] \in issued
 
-Ind == NetTyped /\ NetInv /\ Authentic
+Ind == NetTyped /\ ClockTyped /\ NetInv /\ Authentic
 
 LEMMA InitInd == Init => Ind
-  BY DEF Init, Ind, NetTyped, NetInv, Authentic
+  BY DEF Init, Ind, NetTyped, ClockTyped, NetInv, Authentic
 
 LEMMA EmitKeeps ==
   ASSUME NEW t \in TokT, Ind, Emit(t),
@@ -31,7 +33,7 @@ LEMMA EmitKeeps ==
          t.key # Evil => /\ t.bks = t.key /\ t.bkk = t.bkind
                          /\ [kind |-> t.bkind, key |-> t.key, claims |-> t.claims, note |-> t.bnote] \in issued'
   PROVE Ind'
-  <1>1. net' = Append(net, t) /\ accepted' = accepted
+  <1>1. net' = Append(net, t) /\ accepted' = accepted /\ clock' = clock
     BY DEF Emit
   <1>2. NetTyped'
     BY <1>1, AppendProperties DEF Ind, NetTyped
@@ -49,15 +51,17 @@ LEMMA EmitKeeps ==
     <2> QED BY <2>1, <2>2, <2>3 DEF Ind, NetTyped
   <1>4. Authentic'
     BY <1>1 DEF Ind, Authentic
-  <1> QED BY <1>2, <1>3, <1>4 DEF Ind
+  <1>5. ClockTyped'
+    BY <1>1 DEF Ind, ClockTyped
+  <1> QED BY <1>2, <1>3, <1>4, <1>5 DEF Ind
 
-LEMMA IssueKeeps == ASSUME Ind, NEW s \in Slots, NEW kind, NEW c, NEW n, NEW t \in Slots, Issue(s, kind, c, n, t) PROVE Ind'
-  <1> DEFINE tok == Tok(kind, s, c, n, t)
+LEMMA IssueKeeps == ASSUME Ind, NEW s \in Slots, NEW kind, NEW c, NEW n, NEW t \in Slots, NEW ttl \in 0..1, Issue(s, kind, c, n, t, ttl) PROVE Ind'
+  <1> DEFINE tok == Tok(kind, s, c, n, t, clock + ttl)
   <1>1. kind \in Kinds /\ c \in ClaimSet /\ n \in NoteSet /\ (s # Evil => t = s) /\ Emit(tok)
         /\ issued' = IF t = s THEN issued \cup {[kind |-> kind, key |-> s, claims |-> c, note |-> n]} ELSE issued
     BY DEF Issue
   <1>2. tok \in TokT
-    BY <1>1 DEF Tok, TokT
+    BY <1>1 DEF Tok, TokT, Ind, ClockTyped
   <1>3. issued \subseteq issued'
     BY <1>1
   <1>4. tok.key # Evil => /\ tok.bks = tok.key /\ tok.bkk = tok.bkind
@@ -101,11 +105,11 @@ LEMMA RelabelKeeps == ASSUME Ind, NEW i, Relabel(i) PROVE Ind'
 LEMMA VerifyKeeps == ASSUME Ind, NEW i, Verify(i) PROVE Ind'
   <1> DEFINE t == net[i]
              a == [kind |-> t.head, key |-> t.fks, claims |-> t.claims, note |-> t.fnote]
-  <1>1. i \in 1..Len(net) /\ net' = net /\ issued' = issued
+  <1>1. i \in 1..Len(net) /\ net' = net /\ issued' = issued /\ clock' = clock
         /\ (IF VerifyOk(t) THEN accepted' = accepted \cup {a} ELSE accepted' = accepted)
     BY DEF Verify
-  <1>2. NetTyped' /\ NetInv'
-    BY <1>1 DEF Ind, NetTyped, NetInv
+  <1>2. NetTyped' /\ NetInv' /\ ClockTyped'
+    BY <1>1 DEF Ind, NetTyped, NetInv, ClockTyped
   <1>3. Authentic'
     <2>1. CASE ~VerifyOk(t)
       BY <1>1, <2>1 DEF Ind, Authentic
@@ -126,38 +130,42 @@ LEMMA VerifyKeeps == ASSUME Ind, NEW i, Verify(i) PROVE Ind'
   <1> QED BY <1>2, <1>3 DEF Ind
 
 \* every other action leaves net, issued and accepted alone
-LEMMA FrameKeeps == ASSUME Ind, UNCHANGED <<net, issued, accepted>> PROVE Ind'
-  BY DEF Ind, NetTyped, NetInv, Authentic
+LEMMA FrameKeeps == ASSUME Ind, UNCHANGED <<net, issued, accepted>>, clock' \in Nat PROVE Ind'
+  BY DEF Ind, NetTyped, NetInv, Authentic, ClockTyped
 
 \* The proof is about Deploy!NextD, the actions as an explicit disjunction (tlapm cannot reason about the descriptor table Acts,
 \* a union of set constructors with several bound variables); that every step of Deploy!Next is a step of NextD is checked by TLC
 \* in every configuration of MC_Deploy (PROPERTY DispatchIsDisjunction).
 LEMMA NextKeeps == ASSUME Ind, [NextD]_vars PROVE Ind'
+  <1>0. clock \in Nat
+    BY DEF Ind, ClockTyped
   <1>1. CASE UNCHANGED vars
-    BY <1>1, FrameKeeps DEF vars
+    BY <1>0, <1>1, FrameKeeps DEF vars
   <1>2. CASE \E s \in Slots, m \in {"local", "pair"} : GenKey(s, m)
-    BY <1>2, FrameKeeps DEF GenKey
+    BY <1>0, <1>2, FrameKeeps DEF GenKey
   <1>3. CASE \E s \in Slots : SendPlain(s)
-    BY <1>3, FrameKeeps DEF SendPlain, Send
+    BY <1>0, <1>3, FrameKeeps DEF SendPlain, Send
   <1>4. CASE \E f \in {"pie", "pw"}, s \in Slots, k \in {"local", "secret"}, u \in {"own", "other"} : SendWrapped(f, s, k, u)
-    BY <1>4, FrameKeeps DEF SendWrapped, Send
+    BY <1>0, <1>4, FrameKeeps DEF SendWrapped, Send
   <1>5. CASE \E s \in Slots, u \in {"own", "other"} : SendSeal(s, u)
-    BY <1>5, FrameKeeps DEF SendSeal, Send
+    BY <1>0, <1>5, FrameKeeps DEF SendSeal, Send
   <1>6. CASE \E i \in 1..MaxBlobs, h \in {"flip", "relabel"} : TamperBlob(i, h)
-    BY <1>6, FrameKeeps DEF TamperBlob, Send
+    BY <1>0, <1>6, FrameKeeps DEF TamperBlob, Send
   <1>7. CASE \E i \in 1..MaxBlobs : Import(i)
-    BY <1>7, FrameKeeps DEF Import
+    BY <1>0, <1>7, FrameKeeps DEF Import
   <1>8. CASE \E k \in Kinds, s \in Slots : Forget(k, s)
-    BY <1>8, FrameKeeps DEF Forget
-  <1>9. CASE \E s \in Slots, k \in Kinds, c \in ClaimSet, n \in NoteSet, t \in Slots : Issue(s, k, c, n, t)
+    BY <1>0, <1>8, FrameKeeps DEF Forget
+  <1>9. CASE \E s \in Slots, k \in Kinds, c \in ClaimSet, n \in NoteSet, t \in Slots, ttl \in 0..1 : Issue(s, k, c, n, t, ttl)
     BY <1>9, IssueKeeps
+  <1>13. CASE Tick
+    BY <1>0, <1>13, FrameKeeps DEF Tick
   <1>10. CASE \E i \in 1..MaxNet, j \in 1..MaxNet : Refoot(i, j)
     BY <1>10, RefootKeeps
   <1>11. CASE \E i \in 1..MaxNet : Relabel(i)
     BY <1>11, RelabelKeeps
   <1>12. CASE \E i \in 1..MaxNet : Verify(i)
     BY <1>12, VerifyKeeps
-  <1> QED BY <1>1, <1>2, <1>3, <1>4, <1>5, <1>6, <1>7, <1>8, <1>9, <1>10, <1>11, <1>12 DEF NextD
+  <1> QED BY <1>1, <1>2, <1>3, <1>4, <1>5, <1>6, <1>7, <1>8, <1>9, <1>10, <1>11, <1>12, <1>13 DEF NextD
 
 THEOREM Safety == SpecD => []Authentic
   <1>1. Init => Ind
